@@ -22,6 +22,9 @@ sys.path.insert(0, f'{REPO}/src')  # the current working tree of the repository,
 import warnings  # noqa: E402
 
 warnings.filterwarnings('ignore')
+import logging  # noqa: E402
+
+logging.getLogger().setLevel(logging.ERROR)
 
 from tcverif.core import Ctx, main_guard  # noqa: E402
 
